@@ -1312,6 +1312,9 @@ class KVDef(EntAttribute):
                     # Numbers can be unquoted, everything else cannot.
                     try:
                         float(value)
+                        # float() also allows whitespace and +, which can't be in a bare token.
+                        if value != value.strip() or '+' in value:
+                            raise ValueError
                     except ValueError:
                         value = f'"{_fgd_escape(custom_syntax, value)}"'
 
